@@ -43,6 +43,9 @@ def _program() -> dict[str, Any]:
         "methods": [
             {"name": "echo", "kind": "unary", "params": [("nonce", ("str",))], "ret": ("str",), "u": {"logs": [("INFO", "e", {})], "act": ("echo", "nonce")}},
             {"name": "fail", "kind": "unary", "params": [], "ret": ("str",), "u": {"logs": [], "act": ("raise", "ValueError", "boom")}},
+            # methods whose implementation takes no CallContext; the producer's cancel hook logs to its client
+            {"name": "nonce_len", "kind": "unary", "noctx": True, "params": [("nonce", ("str",))], "ret": ("str",), "u": {"logs": [], "act": ("echo", "nonce")}},
+            {"name": "prodn", "kind": "producer", "noctx": True, "params": [], "header": False, "out_cols": ["i", "s"], "init": {"logs": [], "act": ("ok",)}, "steps": steps(4), "cancel_logs": [("WARN", "prodn-cancelled", {})]},
             {"name": "prod", "kind": "producer", "params": [], "header": False, "out_cols": ["i", "s"], "init": {"logs": [], "act": ("ok",)}, "steps": steps(4)},
             {"name": "prodh", "kind": "producer", "params": [], "header": True, "out_cols": ["i"], "init": {"logs": [("INFO", "init", {})], "act": ("ok",)}, "steps": steps(3)},
             {"name": "xch", "kind": "exchange", "params": [], "header": False, "in_cols": ["i", "s"], "out_cols": ["i", "s"], "init": {"logs": [], "act": ("ok",)}, "steps": [{"logs": [], "act": "emit"}]},
@@ -63,8 +66,12 @@ def _program() -> dict[str, Any]:
 def _gen_script(rng: random.Random, cid: int) -> list[dict[str, Any]]:
     out = []
     for j in range(rng.choice([3, 4, 6])):
-        k = rng.choice(["echo", "echo", "prod", "prodh", "xch", "fail", "perr", "prod_partial"])
-        if k == "echo":
+        k = rng.choice(["echo", "echo", "prod", "prodh", "xch", "fail", "perr", "prod_partial", "nonce_len", "prodn_cancel", "prodn_cancel"])
+        if k == "nonce_len":
+            out.append({"m": "nonce_len", "args": {"nonce": f"n{cid}-{j}-{rng.randrange(10**6)}"}})
+        elif k == "prodn_cancel":
+            out.append({"m": "prodn", "args": {}, "take": rng.choice([1, 2]), "end": "cancel"})
+        elif k == "echo":
             out.append({"m": "echo", "args": {"nonce": f"c{cid}-{j}-{rng.randrange(10**6)}"}})
         elif k == "fail":
             out.append({"m": "fail", "args": {}})
